@@ -16,7 +16,7 @@ inductive Cls where
   | none_ | true_ | false_
   | int_zero | int_pos | int_neg | int_ts | int_large | int_big | int_huge | int_giant
   | float_zero | float_pos | float_neg | float_inf | float_ninf | float_nan
-  | str_empty | str_int | str_negint | str_ts | str_bigdigits | str_hugeint | str_float | str_exp | str_nan | str_inf
+  | str_empty | str_int | str_zero | str_negint | str_ts | str_bigdigits | str_hugeint | str_float | str_exp | str_nan | str_inf
   | str_pct | str_fmt_d | str_fmt_s | str_b64 | str_b64_nonutf8 | str_nonascii | str_surrogate | str_key | str_other
   | str_repr      -- the text of a non-string value (`str(x)`); never a render datum itself
   | list_empty | list_int | list_str | list_numstr | list_mixed | list_dict | list_dict_gap | list_infs | list_nested
@@ -28,7 +28,7 @@ namespace Cls
 def all : List Cls :=
   [none_, true_, false_, int_zero, int_pos, int_neg, int_ts, int_large, int_big, int_huge, int_giant,
    float_zero, float_pos, float_neg, float_inf, float_ninf, float_nan,
-   str_empty, str_int, str_negint, str_ts, str_bigdigits, str_hugeint, str_float, str_exp, str_nan, str_inf,
+   str_empty, str_int, str_zero, str_negint, str_ts, str_bigdigits, str_hugeint, str_float, str_exp, str_nan, str_inf,
    str_pct, str_fmt_d, str_fmt_s, str_b64, str_b64_nonutf8, str_nonascii, str_surrogate, str_key, str_other, str_repr,
    list_empty, list_int, list_str, list_numstr, list_mixed, list_dict, list_dict_gap, list_infs, list_nested,
    dict_empty, dict_, range_, undefined]
@@ -39,7 +39,7 @@ def name : Cls → String
   | int_big => "int_big" | int_huge => "int_huge" | int_giant => "int_giant"
   | float_zero => "float_zero" | float_pos => "float_pos" | float_neg => "float_neg" | float_inf => "float_inf"
   | float_ninf => "float_ninf" | float_nan => "float_nan"
-  | str_empty => "str_empty" | str_int => "str_int" | str_negint => "str_negint" | str_ts => "str_ts"
+  | str_empty => "str_empty" | str_int => "str_int" | str_zero => "str_zero" | str_negint => "str_negint" | str_ts => "str_ts"
   | str_bigdigits => "str_bigdigits" | str_hugeint => "str_hugeint" | str_float => "str_float" | str_exp => "str_exp"
   | str_nan => "str_nan" | str_inf => "str_inf" | str_pct => "str_pct" | str_fmt_d => "str_fmt_d" | str_fmt_s => "str_fmt_s"
   | str_b64 => "str_b64" | str_b64_nonutf8 => "str_b64_nonutf8" | str_nonascii => "str_nonascii"
@@ -56,7 +56,7 @@ def idx : Cls → Nat
   | str_pct => 27 | str_fmt_d => 28 | str_fmt_s => 29 | str_b64 => 30 | str_b64_nonutf8 => 31 | str_nonascii => 32
   | str_surrogate => 33 | str_key => 34 | str_other => 35 | str_repr => 36 | list_empty => 37 | list_int => 38
   | list_str => 39 | list_numstr => 40 | list_mixed => 41 | list_dict => 42 | list_dict_gap => 43 | list_infs => 44
-  | list_nested => 45 | dict_empty => 46 | dict_ => 47 | range_ => 48 | undefined => 49
+  | list_nested => 45 | dict_empty => 46 | dict_ => 47 | range_ => 48 | undefined => 49 | str_zero => 50
 
 /-- comparison through the constructor index: cheap for the kernel -/
 instance : BEq Cls := ⟨fun a b => Nat.beq a.idx b.idx⟩
@@ -70,7 +70,7 @@ def isFloat : Cls → Bool
   | float_zero | float_pos | float_neg | float_inf | float_ninf | float_nan => true | _ => false
 def isNum (c : Cls) : Bool := c.isInt || c.isFloat
 def isStr : Cls → Bool
-  | str_empty | str_int | str_negint | str_ts | str_bigdigits | str_hugeint | str_float | str_exp | str_nan | str_inf
+  | str_empty | str_int | str_zero | str_negint | str_ts | str_bigdigits | str_hugeint | str_float | str_exp | str_nan | str_inf
   | str_pct | str_fmt_d | str_fmt_s | str_b64 | str_b64_nonutf8 | str_nonascii | str_surrogate | str_key | str_other
   | str_repr => true
   | _ => false
@@ -131,10 +131,13 @@ def pyInt : Cls → Res Cls
   | true_ => pure int_pos | false_ => pure int_zero
   | int_zero => pure int_zero | int_pos => pure int_pos | int_neg => pure int_neg | int_ts => pure int_ts
   | int_large => pure int_large | int_big => pure int_big | int_huge => pure int_huge | int_giant => pure int_giant
-  | float_zero => pure int_zero | float_pos => pure int_pos | float_neg => pure int_neg
+  | float_zero => pure int_zero
+  | float_pos => [.ok int_pos, .ok int_zero]      -- 0 < x < 1 truncates to zero
+  | float_neg => [.ok int_neg, .ok int_zero]
   | float_inf | float_ninf => raise .OverflowError
   | float_nan => raise .ValueError
-  | str_int => pure int_pos | str_negint => pure int_neg | str_ts => pure int_ts | str_bigdigits => pure int_large
+  | str_int => pure int_pos | str_zero => pure int_zero | str_negint => pure int_neg | str_ts => pure int_ts
+  | str_bigdigits => pure int_large
   | str_hugeint => raise .ValueError    -- more digits than sys.get_int_max_str_digits()
   | str_empty | str_float | str_exp | str_nan | str_inf | str_pct | str_fmt_d | str_fmt_s | str_b64 | str_b64_nonutf8
   | str_nonascii | str_surrogate | str_key | str_other => raise .ValueError
@@ -144,7 +147,8 @@ def pyInt : Cls → Res Cls
 
 /-- `float(s)` for a string -/
 def pyFloat : Cls → Res Cls
-  | str_int => pure float_pos | str_negint => pure float_neg | str_ts | str_bigdigits => pure float_pos
+  | str_int => pure float_pos | str_zero => pure float_zero | str_negint => pure float_neg
+  | str_ts | str_bigdigits => pure float_pos
   | str_hugeint => pure float_inf     -- more than 308 digits
   | str_float => pure float_pos | str_exp | str_inf => pure float_inf | str_nan => pure float_nan
   | _ => raise .ValueError
@@ -159,7 +163,7 @@ def pyStr (c : Cls) : Res Cls :=
 
 /-- `Decimal(s)` for a string -/
 def pyDecimalOfStr : Cls → Res Unit
-  | str_int | str_negint | str_ts | str_bigdigits | str_hugeint | str_float | str_exp | str_nan | str_inf => pure ()
+  | str_int | str_zero | str_negint | str_ts | str_bigdigits | str_hugeint | str_float | str_exp | str_nan | str_inf => pure ()
   | _ => raise .decimal_InvalidOperation
 
 /-- `Decimal(str(x))` for a number (bools print as `True`/`False`) -/
@@ -189,9 +193,10 @@ def pyDecArith (op : ArithOp) (a b : Cls) : Res Unit :=
   | .modulo =>
     if nan then pure ()
     else if a.isInfinite || b.isZero then raise .decimal_InvalidOperation
-    else if b.isInfinite then pure ()
+    else if b.isInfinite || a.isZero then pure ()
     -- the integer quotient must fit the context precision (28 digits)
     else if a.isHugeInt then (if b.isHugeInt then [.ok (), .error .decimal_InvalidOperation] else raise .decimal_InvalidOperation)
+    else if b == float_pos || b == float_neg then [.ok (), .error .decimal_InvalidOperation]    -- a tiny divisor
     else if a == int_big then (if b.isHugeInt || b == int_big then pure () else [.ok (), .error .decimal_InvalidOperation])
     else pure ()
 
@@ -216,7 +221,7 @@ def pyB64DecodeUtf8 : Cls → Res Unit
   | str_nonascii | str_surrogate => raise .ValueError      -- "string argument should contain only ASCII characters"
   | str_other | str_key => raise .binascii_Error
   -- remaining strings: depends on length mod 4 and on the decoded bytes
-  | _ => [.ok (), .error .binascii_Error, .error .UnicodeDecodeError]
+  | _ => [.ok (), .error .binascii_Error, .error .UnicodeDecodeError, .error .ValueError]
 
 /-- `datetime.datetime.fromtimestamp(n)` for an int -/
 def pyFromTimestamp : Cls → Res Unit
@@ -232,7 +237,7 @@ def pyDateParse : Cls → Res Unit
 
 /-- `s.isdigit()` -/
 def strIsDigit : Cls → Bool
-  | str_int | str_ts | str_bigdigits | str_hugeint => true
+  | str_int | str_zero | str_ts | str_bigdigits | str_hugeint => true
   | _ => false
 
 /-- `" " * n` inside `json.dumps(obj, indent=n)` for a container / scalar that is pretty-printed -/
